@@ -177,10 +177,12 @@ fn highlighted(plain: &str, mask: &[Option<u32>], at: usize, len: usize) -> Stri
 /// C16 rendering rule, checked without assuming the width of the number column: returns Err(description).
 pub fn check_rendering(src: &str, s: usize, e: usize, block: &str) -> Result<(), String> {
     let first = line_of(src, s);
-    let last = line_of(src, e - 1);
+    // first byte of the last removed character (it may be multi-byte)
+    let lc = src[..e].char_indices().last().map(|(p, _)| p).unwrap_or(s);
+    let last = line_of(src, lc);
     let ls = src[..s].rfind('\n').map(|p| p + 1).unwrap_or(0);
-    let les = src[..e - 1].rfind('\n').map(|p| p + 1).unwrap_or(0);
-    let le = src[e - 1..].find('\n').map(|p| p + e - 1).unwrap_or(src.len());
+    let les = src[..lc].rfind('\n').map(|p| p + 1).unwrap_or(0);
+    let le = src[lc..].find('\n').map(|p| p + lc).unwrap_or(src.len());
     let want_lines: Vec<String> = src[ls..le].split('\n').map(|l| l.replace('\t', "    ")).collect();
     let got: Vec<&str> = block.split('\n').collect();
     if got.len() != want_lines.len() + 2 {
@@ -210,7 +212,7 @@ pub fn check_rendering(src: &str, s: usize, e: usize, block: &str) -> Result<(),
     if got[0] != want_start {
         return Err(format!("the start marker line is {:?}, expected {:?} (column of the first removed character, tab = 4)", got[0], want_start));
     }
-    let want_end = format!("{}‾end", " ".repeat(w + width(&src[les..e - 1])));
+    let want_end = format!("{}‾end", " ".repeat(w + width(&src[les..lc])));
     if got[got.len() - 1] != want_end {
         return Err(format!("the end marker line is {:?}, expected {:?} (column of the last removed character, tab = 4)", got[got.len() - 1], want_end));
     }
